@@ -441,6 +441,26 @@ func ruleFunnelOnce(r *Run) {
 							arg := r.P.Canon(pe.Fn, pe.Call.Args[0])
 							tm := r.P.Canon(pe.Fn, pe.Recv)
 							reset = arg == "recv.Handler.call:Handler.IdleTimeout()" && strings.HasPrefix(tm, "call:time.NewTimer(recv.Handler.call:Handler.IdleTimeout())")
+							if !reset {
+								// the timer and its period kept in a small struct built from the handler's getter
+								// (timers := newLoopTimers(h.Handler); timers.rearmIdle()): followed to where they were created
+								isIdle := func(x ast.Expr, fn *Func) bool {
+									o, ofn := r.originOf(fn, x, 0)
+									if o == nil || ofn == nil {
+										return false
+									}
+									c := r.P.Canon(ofn, o)
+									return strings.Contains(c, "call:Handler.IdleTimeout()") || strings.Contains(types.ExprString(o), ".IdleTimeout()")
+								}
+								to, tfn := r.originOf(pe.Fn, pe.Recv, 0)
+								timerFromIdle := false
+								if call, ok := ast.Unparen(to).(*ast.CallExpr); ok && tfn != nil {
+									if g, ok := calleeObj(tfn.Info(), call).(*types.Func); ok && g.FullName() == "time.NewTimer" && len(call.Args) == 1 {
+										timerFromIdle = isIdle(call.Args[0], tfn)
+									}
+								}
+								reset = timerFromIdle && isIdle(pe.Call.Args[0], pe.Fn)
+							}
 						}
 					}
 				}
@@ -451,6 +471,19 @@ func ruleFunnelOnce(r *Run) {
 				if es, ok := cl.Comm.(*ast.ExprStmt); ok {
 					if u, ok := ast.Unparen(es.X).(*ast.UnaryExpr); ok && strings.HasPrefix(r.P.Canon(handle, u.X), "call:time.NewTimer(recv.Handler.call:Handler.IdleTimeout()).C") {
 						nIdle++
+					} else if ok {
+						// <-timers.idle.C: the timer kept in a struct, followed to the NewTimer(…IdleTimeout()) that made it
+						if cse, isSel := ast.Unparen(u.X).(*ast.SelectorExpr); isSel && cse.Sel.Name == "C" {
+							if to, tfn := r.originOf(ev.Fn, cse.X, 0); to != nil && tfn != nil {
+								if call, isCall := ast.Unparen(to).(*ast.CallExpr); isCall && len(call.Args) == 1 {
+									if g, isF := calleeObj(tfn.Info(), call).(*types.Func); isF && g.FullName() == "time.NewTimer" {
+										if ao, afn := r.originOf(tfn, call.Args[0], 0); ao != nil && afn != nil && strings.Contains(types.ExprString(ao), ".IdleTimeout()") {
+											nIdle++
+										}
+									}
+								}
+							}
+						}
 					}
 				}
 			}
